@@ -21,6 +21,18 @@ def plan(tier):
            (PG.saturate(5, 0, None, "reusable", cpu=1), 0, dict(kinds=("P",)))]
     # a resize interrupted by an exception (warnings as errors) must not leave a half-updated pool
     pl += [(PG.interrupted_resize(3, 1), 1, PT), (PG.interrupted_resize(2, 1), 1, PT)]
+    # idle timers expire while the last submit is in progress (timeout ~ 0 relative to that call),
+    # the manager reacts at once
+    ZS = dict(kinds=("P",), zero_when="submit", starve="eager:parent:manager")
+    pl += [(PG.idle_exit_during_submit(2), 1, ZS), (PG.idle_exit_during_submit(2), 1, dict(kinds=("P",), zero_when="submit")),
+           (PG.saturate_partial_drain(2), 1, ZS)]
+    # ... two preemptions of the submitting thread by workers inside that submit (the idle
+    # worker announces its exit, then completes it while the manager waits for it)
+    ZS2 = dict(ZS, p_scope="worker", p_when="submit", p_cur="parent:main")
+    pl += [(PG.idle_exit_during_submit(2), 2, ZS2)]
+    if tier == "thorough":
+        pl += [(PG.idle_exit_during_submit(2), 2, dict(ZS, p_scope="worker")),
+               (PG.saturate_partial_drain(2), 2, ZS2)]
     pl += [(PG.respawn_race(2), 2, dict(kinds=("T", "P"), t_scope="parent:main", p_scope="parent:",
                                         p_when="_adjust_process_count"))]
     if tier == "thorough":
